@@ -52,13 +52,44 @@ theorem cte_chain (env : Env N) (data : Row N) (sc : Scope) (c1 c2 : String) (q1
     (by simp [cteNames, hn, h1]) hf1 hb1 (by simpa [cteNames] using hq1)]
   exact cte_substitution env (setKey c1 v1 data) sc c2 q2 rest d sel frm wh gb hv ob lim off v2 h2 hf2 hb2 hq2
 
-/-- **derived tables**: `FROM (inner) AS d` resolves to exactly the rows `FROM t AS d` resolves to
-    when `t` holds the materialised result of `inner` -/
+/-- **a WITH in front of a UNION** is handed to the branches: `WITH c AS (inner), rest… l UNION r` is prepared exactly
+    like `WITH rest… l UNION r` over the document extended with `c ↦ (result of inner)` — both branches read
+    the same materialised rows -/
+theorem union_cte_substitution (env : Env N) (data : Row N) (sc : Scope) (c : String) (inner : Query N)
+    (ctes : List (Cte N)) (l r : Query N) (d : Bool) (ob : List (List String × Bool)) (lim off : Option Nat)
+    (v : Val N)
+    (hc1 : c ∉ cteNames ctes) (hc2 : c ∉ sc.fwd) (hc3 : c ∉ sc.bad)
+    (hin : execQuery env data { sc with fwd := c :: (cteNames ctes ++ sc.fwd) } inner = .ok v) :
+    execQuery env data sc (.union (.mk c inner :: ctes) l r d ob lim off) =
+    execQuery env (setKey c v data) sc (.union ctes l r d ob lim off) := by
+  have hin' : (do let p ← prepare env data { sc with fwd := c :: (cteNames ctes ++ sc.fwd) } inner; p.run p.frm) = .ok v := hin
+  have hf : (c :: (cteNames ctes ++ sc.fwd)).filter (· ≠ c) = cteNames ctes ++ sc.fwd := by
+    simp only [List.filter_cons, ne_eq, not_true_eq_false, decide_false, Bool.false_eq_true, if_false]
+    apply filter_ne_self
+    simp [hc1, hc2]
+  simp only [execQuery, prepare, cteNames, evalCtes, List.cons_append]
+  rw [hin']
+  simp only [filter_ne_self hc3, hf]
+
+/-- **reading a CTE is reading a table**: `WITH c AS (inner) SELECT … FROM c …` equals the same SELECT over the
+    document in which `c` is an ordinary table holding the rows `inner` returns -/
+theorem cte_read_is_table_read (env : Env N) (data : Row N) (c : String) (inner : Query N) (d : Bool)
+    (sel : List (SelItem N)) (alias : String) (wh : Expr N) (gb : List (String × List String)) (hv : Expr N)
+    (ob : List (List String × Bool)) (lim off : Option Nat) (v : Val N)
+    (hin : execQuery env data { bad := [], fwd := [c] } inner = .ok v) :
+    execQuery env data {} (.select [.mk c inner] d sel (.table [c] alias c) wh gb hv ob lim off) =
+    execQuery env (setKey c v data) {} (.select [] d sel (.table [c] alias c) wh gb hv ob lim off) :=
+  cte_substitution env data {} c inner [] d sel _ wh gb hv ob lim off v (by simp [cteNames]) (by simp) (by simp)
+    (by simpa [cteNames] using hin)
+
+/-- **derived tables**: `FROM (inner) AS d` resolves to exactly what `FROM t AS d` resolves to when `t` holds the
+    materialised result of `inner` — the rows AND the identifier `d` under which a join attributes ON columns to
+    this side and stores its NULL extension (repair D52: a derived table had the empty identifier) -/
 theorem derived_substitution (env : Env N) (data : Row N) (sc : Scope) (inner : Query N) (alias t : String)
     (v : Val N) (hv : v ≠ .null) (hin : execQuery env data sc inner = .ok v)
     (ht : t ∉ sc.fwd) (hb : t ∉ sc.bad) :
-    (evalFrom env data sc (.derived inner alias)).map (·.1) =
-    (evalFrom env (setKey t v data) sc (.table [t] alias alias)).map (·.1) := by
+    evalFrom env data sc (.derived inner alias) =
+    evalFrom env (setKey t v data) sc (.table [t] alias alias) := by
   have hin' : (do let p ← prepare env data sc inner; p.run p.frm) = .ok v := hin
   cases hp : prepare env data sc inner with
   | error e => simp [hp, bind, Except.bind] at hin'
@@ -66,13 +97,6 @@ theorem derived_substitution (env : Env N) (data : Row N) (sc : Scope) (inner : 
     have hrun : p.run p.frm = .ok v := by simpa [hp, bind, Except.bind] using hin'
     simp only [evalFrom, hp, hrun, ht, hb, if_false, readPath_single, Val.get, lookup?_setKey_same, bind, Except.bind,
       pure, Except.pure, Except.map]
-    cases v with
-    | null => exact absurd rfl hv
-    | arr xs => simp [asArray]
-    | obj fs => simp [asArray]
-    | bool b => simp [asArray]
-    | num n => simp [asArray]
-    | str s => simp [asArray]
 
 /-- **a sub-query in the select list contributes exactly what it returns when run standalone on
     the current row extended with the `<-` marker** -/
